@@ -145,9 +145,9 @@ reg(P(
 
 reg(P(
     "C12", "The wire format depends only on field numbers and resolved types",
-    [("F3", ALL), ("A4", ALL), ("D5", {"ast"}), ("D7", ALL), ("EC3", ALL), ("V1", {"reference"})],
-    "layout-bearing computations (size arithmetic, planner, processor/descriptor constructors) read only number / cap / extensible / type attributes, never names, comments, positions or option values; comment / newline / semicolon actions build nothing (F3); declaration order is erased by sorting on the integer field number at every order-sensitive site (A4); Alias.nbits is the target's and alias processors only delegate in all three runtimes (D5, D7, EC3); the resolved definition object is what a field stores, wherever it was declared (V1).",
-    "byte equality of two compilations; constant-expression evaluation (C13).",
+    [("F3", ALL), ("A4", ALL), ("D5", {"ast"}), ("D7", ALL), ("EC3", ALL), ("V1", {"reference"}), ("D2", ALL), ("D6", {"py", "go"}), ("B4", ALL)],
+    "layout-bearing computations (size arithmetic, planner, processor/descriptor constructors) read only number / cap / extensible / type attributes, never names, comments, positions or option values; comment / newline / semicolon actions build nothing (F3); declaration order is erased by sorting on the integer field number at every order-sensitive site (A4); Alias.nbits is the target's and alias processors only delegate in all three runtimes (D5, D7, EC3); the resolved definition object is what a field stores, wherever it was declared (V1); alias transparency of the generators: for every type shape reached through an alias the optimization-mode statements and the generated accessors are the ones of the aliased type, with the alias name only where the target language needs a conversion (D2 scenarios Alias->leaf incl. the unsigned working type, D6 shapes alias(...)); a literal and a constant expression of equal value are the same to the rest of the compiler because operator precedence and associativity are the usual ones (B4).",
+    "byte equality of two compilations.",
 ))
 
 reg(P(
